@@ -1534,7 +1534,7 @@ def gen_seq(rnd, n_seq, shape=None, fsm=True):
     regs_ = [x for x in plan['blocks'] if x['kind'] == 'Reg']
     for k, x in enumerate(rnd.sample(regs_, min(len(regs_), 2))):
         wid = rnd.choice([x['args']['d'], x['args']['q']])
-        plan['blocks'].append(native_block('cap%d' % k, 'StreamCapture', dict(x=wid), {}, x['scope'] if rnd.random() < 0.6 else ''))
+        plan['blocks'].append(native_block('cap%d' % k, 'StreamCapture', dict(x=wid), {}, x['scope']))
     return assign_wire_scopes(plan)
 
 
